@@ -452,6 +452,12 @@ func check(c Case) (o pbt.Outcome) {
 						o.Class("skipped:generator-output-not-repeatable")
 						continue
 					}
+					// the listed C07 finding (a property referring to an alias of an alias is rendered differently from run to
+					// run) can escape four repetitions: model files of such definitions are left to C07
+					if m := reSwaggerModel.FindStringSubmatch(want); m != nil && aliasRelatedDefs(spec)[strings.TrimSpace(m[1])] {
+						o.Class("skipped:alias-of-alias-model (C07 finding)")
+						continue
+					}
 				}
 				if !ok {
 					o.Fail("C11|not-converged|missing|"+fileRole(p)+"|"+s.Target, "after step %d (%s) the file %s of a fresh generation is missing\nhistory: %v", i, step, p, hist)
@@ -485,6 +491,49 @@ func check(c Case) (o pbt.Outcome) {
 	}
 	o.Sample = map[string]any{"history": hist}
 	return
+}
+
+var reSwaggerModel = regexp.MustCompile(`(?m)^// swagger:model ([^\n]+)$`)
+
+// aliasRelatedDefs: definitions that are a bare $ref to another definition, and the definitions that refer to one.
+func aliasRelatedDefs(spec []byte) map[string]bool {
+	out := map[string]bool{}
+	doc, err := specgen.Parse(spec)
+	if err != nil {
+		return out
+	}
+	defs, _ := doc["definitions"].(J)
+	alias := map[string]bool{}
+	for n, d := range defs {
+		if dj, ok := d.(J); ok {
+			if _, isRef := dj["$ref"].(string); isRef {
+				alias[n] = true
+				out[n] = true
+			}
+		}
+	}
+	var walk func(v any, f func(J))
+	walk = func(v any, f func(J)) {
+		switch x := v.(type) {
+		case J:
+			f(x)
+			for _, e := range x {
+				walk(e, f)
+			}
+		case A:
+			for _, e := range x {
+				walk(e, f)
+			}
+		}
+	}
+	for n, d := range defs {
+		walk(d, func(o J) {
+			if r, ok := o["$ref"].(string); ok && alias[strings.TrimPrefix(r, "#/definitions/")] {
+				out[n] = true
+			}
+		})
+	}
+	return out
 }
 
 var reImportLine = regexp.MustCompile(`^\s*([A-Za-z_][A-Za-z0-9_]* )?"[^"]+"\s*$`)
